@@ -314,6 +314,48 @@ func checkC15(c *Ctx) {
 			}
 		}
 
+		// R7: the state file has its full size on every path that maps it
+		ru7 := c.R.Rule("C15-R7", "the consumer state file is given its size on every path that maps it: (*os.File).Truncate with a constant of at least 8, or a test of the file's size, precedes gommap.Map — whether the file was just created or already existed (a crash between creating and sizing the file leaves an empty one; a later run that maps it as found fails for ever and nothing is consumed again)", "E1 must-pass-through on the paths to the mapping, package helpers inlined", 1)
+		if trunc := c.P.MethodObj("os", "File", "Truncate"); ru7.Anchor(trunc != nil, "os.(*File).Truncate") {
+			paths, err := c.pathsInlinedPkg(s.impl, core.PathOpts{}, nil)
+			if err != nil {
+				ru7.Undecided("paths to gommap.Map in "+c.fname(s.impl), c.where(s.impl, s.impl), err.Error())
+			} else {
+				nMap, bad := 0, ""
+				for _, p := range paths {
+					sized, mapped := false, false
+					for _, pi := range p.Instrs() {
+						if pi.Deferred {
+							continue
+						}
+						cl := core.CallOf(pi.In)
+						if cl == nil {
+							continue
+						}
+						if cl.Is(trunc) && len(cl.Common.Args) > 1 {
+							if k, ok := constInt(cl.Common.Args[1]); ok && k >= 8 {
+								sized = true
+							}
+						}
+						if cl.Obj != nil && cl.Obj.Name() == "Size" && cl.Invoke {
+							sized = true // os.FileInfo.Size consulted
+						}
+						if pi.In == s.mapCall.Instr {
+							mapped = true
+							if !sized {
+								bad = "the state file is mapped as it was found, without having been sized: " + fmtPath(p, c.P)
+							}
+							break
+						}
+					}
+					if mapped {
+						nMap++
+					}
+				}
+				ru7.Check(bad == "" && nMap > 0, "paths to gommap.Map in "+c.fname(s.impl), c.whereI(s.mapCall.Instr), fmt.Sprintf("%d path(s), each sizes the file first", nMap), bad)
+			}
+		}
+
 		// R6
 		ru6 := c.R.Rule("C15-R6", "the offset handed to the callback is batch.FirstOffset + i where i indexes the very record whose decoding is the second argument; every iteration that continues hands its record over", "E3 + E2", 2)
 		ot := core.Term(ho)
